@@ -103,6 +103,7 @@ TagStruct == Struct(<<Fld(TRUE, IntT, Tag2, FALSE)>>)
 Fixed == << [l |-> "tag",       t |-> TagStruct],
             [l |-> "chanparen", t |-> Chan("both", Chan("recv", IntT))],
             [l |-> "typearg",   t |-> Inst(Struct(<<Fld(TRUE, IntT, "", FALSE)>>))],
+            [l |-> "typearg",   t |-> Inst(Func(<<I3>>, <<>>, FALSE))],
             [l |-> "ifacepkg",  t |-> Named(TRUE, I1, "none")],
             [l |-> "modpath",   t |-> EB],
             [l |-> "modpath",   t |-> Inst(EB)],
